@@ -42,6 +42,22 @@ Theorem C03_hash : forall v msg, xvariant_ok v ->
 Proof. intros v msg Hv. exact (hash_oneshot_spec Perm.perm perm_len v Hv msg). Qed.
 Print Assumptions C03_hash.
 
+(* pad() between absorb calls (ascon_xof_pad / ascon_xofa_pad, "absorbs enough zeroes to align the input to the next
+   multiple of the block rate"): the digest is the specification's for the message with those zero bytes inserted *)
+Theorem C03_pad : forall v pre post outs, xvariant_ok v ->
+  let s1 := fold_left (xof_absorb Perm.perm v) pre (xof_init Perm.perm v) in
+  xof_run Perm.perm v (xof_pad Perm.perm v s1) post outs =
+  Hash.xof Perm.perm v (concat pre ++ zeros (pad_len v s1) ++ concat post) (fold_right Nat.add 0 outs).
+Proof.
+  intros v pre post outs Hv.
+  exact (xof_run_pad_spec Perm.perm perm_len v Hv (iv_state Perm.perm v 0) pre post outs (iv_state_len Perm.perm perm_len v 0)).
+Qed.
+Print Assumptions C03_pad.
+Example C03_pad_nonvacuous :
+  pad_len vxofa (fold_left (xof_absorb Perm.perm vxofa) [[1%N; 2%N]; [3%N]] (xof_init Perm.perm vxofa)) = 5 /\
+  pad_len vxof (fold_left (xof_absorb Perm.perm vxof) [[1%N; 2%N]; [3%N]; [4%N;5%N;6%N;7%N;8%N]] (xof_init Perm.perm vxof)) = 0.
+Proof. split; vm_compute; reflexivity. Qed.
+
 (* customised XOF: every name length (NULL, empty, <= 32 zero-padded, > 32
    hashed), every customisation string, every declared length *)
 Theorem C03_custom : forall v name custom L chunks outs, xvariant_ok v ->
